@@ -121,19 +121,9 @@ Print Assumptions C15_binary_is_spec.
 
 (* non-vacuity: a concrete well-formed buffer (exact, partial and unknown hash; text and binary entries;
    data lengths 8, 3, 0, 5) satisfies the hypotheses and is displayed as specified, by computation *)
-Definition ex_table : list tstring :=
-  [ mkTString 1200042 (L "first %d") (L "a.c(12)");
-    mkTString 3400042 (L "value 0x%04X and %u") (L "b.c(34)");
-    mkTString 5600042 (L "last partial %c") (L "c.c(56)") ].
-Definition ex_buffer : abuffer :=
-  mkABuffer 1 32 0 66 (L "POWR" ++ repeat 0 8) [0; 0; 0; 0] 132 2 0
-    [ mkAEntry 3661 1 18004 3400042 34 [0; 0; 0; 171; 0; 0; 0; 7] [];
-      mkAEntry 65535 2 18004 7800042 78 [65; 66; 67] [255];
-      mkAEntry 0 3 18004 99 1 [] [];
-      mkAEntry 10 4 17988 1200042 12 [1; 2; 3; 4; 5] [0; 0; 0] ].
 Example C15_example :
-  wf_bufferb ex_buffer = true /\
-  parse_trace ex_table (encode_buffer ex_buffer) = expected_lines ex_table ex_buffer /\
-  length (expected_lines ex_table ex_buffer) = 14%nat /\
-  nth 7 (expected_lines ex_table ex_buffer) [] = L " 1:01:01 0001    34 value 0x00AB and 7".
+  wf_bufferb example_buffer = true /\
+  parse_trace example_table (encode_buffer example_buffer) = expected_lines example_table example_buffer /\
+  length (expected_lines example_table example_buffer) = 14%nat /\
+  nth 7 (expected_lines example_table example_buffer) [] = L " 1:01:01 0001    34 value 0x00AB and 7".
 Proof. vm_compute. repeat split; reflexivity. Qed.
